@@ -37,7 +37,7 @@ class EnumRef:
         return f"{self.cls.split(':')[1]}.{self.member}"
 
 
-@dataclass
+@dataclass(eq=False)
 class FunctionInfo:
     module: "Module"
     qualname: str
@@ -102,7 +102,7 @@ class EnumInfo:
         return v[idx]
 
 
-@dataclass
+@dataclass(eq=False)
 class ClassInfo:
     module: "Module"
     name: str
